@@ -7,7 +7,7 @@ From FlacWriters Require Import Params_proofs.
 From FlacReaders Require Readers Spec Ser RNum Seek.
 From FlacWriters Require Import Lists_proofs Writers_proofs.
 From FlacWriters Require Import Bytes_proofs Cross_proofs.
-From FlacE2E Require Import Bridge E2E SampleE2E Success ChannelE2E ByteE2E ByteSuccess ChannelSuccess ReadBridge ReadersE2E InterruptedE2E SeekE2E SeekReadE2E Transfer.
+From FlacE2E Require Import Bridge E2E SampleE2E Success ChannelE2E ByteE2E ByteSuccess ChannelSuccess ReadBridge ReadersE2E InterruptedE2E SeekE2E SeekReadE2E Transfer DecodedFile.
 Import ListNotations.
 Open Scope N_scope.
 
@@ -543,6 +543,28 @@ Theorem C06_channel_written_file_seeks : forall o L md5, (forall l, length (md5 
         FlacReaders.Spec.seeks_land written atr /\ FlacReaders.Spec.failed_seeks_safe written atr.
 Proof. exact channel_written_file_seeks. Qed.
 
+(* C07 composed with the codec area for EVERY file, not only those this crate wrote.  Whenever the stream decoder model
+   reads a file to a clean end, the frames it returns are the interleavings of blocks whose abstract file is VALID in
+   the readers area's sense (channel counts, block shapes, the declared total, the short-block rule the decoder
+   enforces: the hypothesis of every C06/C07 theorem), so every seek-free history of the sample reader model delivers
+   exactly the decoded samples, once and in order.  With C03 (the decoder returns the RFC semantics of every valid
+   stream) this is the readers' contract on all valid FLAC files. *)
+Theorem C07_decoded_file_is_read : forall file si frames e rp,
+  FlacCodec.Stream.dec_stream file = Some (si, frames, FlacCodec.Stream.EndEof) ->
+  1 <= FlacCodec.Ast.si_channels si -> 1 <= FlacCodec.Ast.si_bps si <= 32 ->
+  N.of_nat (length (concat frames)) < 2 ^ 36 ->
+  exists blocks, frames = map FlacCodec.Stream.interleave_frame blocks /\
+    let F := file_of_blocks blocks (FlacCodec.Ast.si_channels si) (FlacCodec.Ast.si_bps si)
+               (if FlacCodec.Ast.si_total si =? 0 then None else Some (FlacCodec.Ast.si_total si)) e rp in
+    FlacReaders.Spec.valid_file F /\ FlacReaders.Spec.pcm F = concat frames /\
+    forall ops, FlacReaders.Spec.no_sseek ops -> Forall FlacReaders.Spec.sop_ok (snd (FlacReaders.Seek.sample_run F ops)) ->
+      let atr := map (FlacReaders.Spec.abs_s F) (snd (FlacReaders.Seek.sample_run F ops)) in
+      Forall (FlacReaders.Spec.cur_ok (concat frames)) atr /\
+      FlacReaders.Spec.chained 0 atr (FlacReaders.Spec.spos F (fst (FlacReaders.Seek.sample_run F ops))) /\
+      FlacReaders.Spec.exactly_once (concat frames) atr.
+Proof. exact decoded_file_is_read. Qed.
+
+Print Assumptions C07_decoded_file_is_read.
 Print Assumptions C06_byte_written_file_seeks.
 Print Assumptions C06_channel_written_file_seeks.
 Print Assumptions C09_byte_writer_seekpoints.
